@@ -2,36 +2,30 @@ package main
 
 import (
 	"fmt"
+	"os"
+	"runtime/pprof"
 	"testing"
+	"time"
 )
 
-func TestDebugSetLaw(t *testing.T) {
+func TestDebugC13(t *testing.T) {
+	go func() { time.Sleep(30 * time.Second); pprof.StopCPUProfile(); os.Exit(3) }()
+	f, _ := os.Create("/tmp/c13.prof")
+	pprof.StartCPUProfile(f)
 	w, _ := LoadWorld()
 	cs, err := LoadContracts()
 	if err != nil {
 		t.Fatal(err)
 	}
-	ex := w.NewExec()
-	ex.UseLoops(cs, "(NaturalLanguageValues).Get", "(*NaturalLanguageValues).Set")
-	st := newState()
-	nlvT := w.Type("NaturalLanguageValues")
-	cell := ex.newObj("n", OCell, nlvT)
-	cell.owner = 0
-	n0 := ex.symValue(nlvT, varNamer("n"), false)
-	cell.init = func() Value { return n0 }
-	np := &PtrVal{Alts: []PtrAlt{{C: TTrue, O: cell}}}
-	ref, v := Var("ref", SStr), Var("v", SBytes)
-	set := w.lookupFn("(*NaturalLanguageValues).Set")
-	ex.Call(st, set, []Value{np, ref, v}, nil)
-	fmt.Println("PC:", st.pc)
-	n1 := ex.heapGet(st, cell).(*SliceVal)
-	for _, al := range n1.Alts {
-		fmt.Println("alt", al.C, al.O, al.Off, al.Len)
-		if al.O != nil {
-			fmt.Printf("   content %v\n", ex.heapGet(st, al.O))
+	for _, n := range []string{"(ItemCollection).Contains", "(IRIs).Contains", "(*IRIs).Append"} {
+		c := NewCheck("CXX", "quick")
+		t0 := time.Now()
+		verifyContract(w, c, cs, "C13", n, []string{"(IRIs).Contains"}, nil, installItemsEqContract)
+		fmt.Println(n, "gen", time.Since(t0), "obls", len(c.Obls), "terms", termSeq)
+		for _, o := range c.Obls {
+			if o.EngineErr != "" {
+				fmt.Println("   ERR", o.Name, o.EngineErr)
+			}
 		}
-	}
-	for _, so := range ex.sideObls {
-		fmt.Println("side", so.Name)
 	}
 }
